@@ -11,7 +11,7 @@ R4 the print buffer, the parser and the descriptor are released on every path (o
 from ..ir import load_program
 from ..cfg import cfg_of
 from ..flow import Paths, derived_values
-from .. import own
+from .. import own, pe
 
 
 def run(chk):
@@ -21,12 +21,13 @@ def run(chk):
     chk.require(m is not None, "json_util.c not in the build")
     r1(chk, prog, m)
     r2(chk, prog, m)
+    _confirm_shape_rules(chk, prog, m)
     r3(chk, prog, m)
     r5(chk, prog, m)
     own.rule_leaks(chk, prog, "C20.R4", only_functions={"json_object_from_fd_ex", "json_object_from_file", "json_object_to_file_ext",
                                                          "_json_object_to_fd", "json_object_to_fd"}, floor=4)
     chk.undecided_clauses += [
-        "behaviour under scripted short counts (needs interposition of read/write: dynamic)",
+        "scripted counts are evaluated on a 6-byte text / at most 4 reads with results from {-1, 0, 1 or 3, full}; other sizes follow from loop uniformity",
         "a serialization failure inside json_object_to_fd returns -1 without a message (not one of the failure classes the property lists)",
     ]
 
@@ -438,3 +439,239 @@ def r5(chk, prog, m):
                                     "(short count followed by an error, ENOSPC, EIO) is reported to the caller as success"
                                     % (c.callee, ("the constant %d" % val.v) if val.kind == "int" else "another value (%s)" % (val.v if val.kind == "reg" else val.kind)))
     chk.floor(rid, n, 2, "returns after the descriptor writer")
+
+
+# ---------------------------------------------------------------------------
+# evaluation of the two loops on scripted return values of write() / read(): confirms or overrides what the shape rules say
+N_TEXT = 6
+
+
+class _WritePE(pe.PE):
+    def __init__(self, prog):
+        super().__init__(prog, max_leaves=400, max_steps=200000)
+        self.loop_widen = 1000
+        self.max_visits = 64
+
+    def should_inline(self, g, instr):
+        return g.internal and g.name not in ("_json_c_set_last_err",)
+
+    def init_mem(self, state, base, path, t):
+        return pe.TOP
+
+    def call_model(self, state, frame, i, args):
+        nm = i.callee
+        if nm == "json_object_to_json_string_ext":
+            return ("ptr", "text", ())
+        if nm == "strlen":
+            return pe.C(N_TEXT)
+        if nm == "__errno_location":
+            return ("ptr", "errno", ())
+        if nm == "strerror":
+            return ("ptr", "msg", ())
+        if nm == "_json_c_set_last_err":
+            state.trace.append(("err",))
+            return pe.C(0)
+        if nm == "write":
+            p, n = args[1], args[2]
+            off = None
+            if p[0] == "ptr" and p[1] == "text":
+                el, fl = pe.fields_of(self._loc(state, p)[1]) if self._loc(state, p) is not None else (None, ())
+                off = el if isinstance(el, int) and not fl else None
+            nv = n[1] if pe.is_const(n) else None
+            if nv is None and not pe.has_top(n):
+                vs = state.values(n)
+                if vs is not None and len(vs) == 1:
+                    nv = next(iter(vs))
+            dom = [-1, 1] + ([nv] if isinstance(nv, int) and nv > 1 else [])
+            r = self.fresh_root(state, "wr", dom)
+            state.trace.append(("write", off, nv, r[1]))
+            return r
+        return None
+
+
+def _eval_write(prog, m):
+    """(verdict, message): 'ok' when on every scripted sequence of write() results the bytes offered are exactly the unwritten
+    suffix, a failure gives -1 with a message and completion gives 0; 'bad' with a concrete schedule otherwise; 'unknown'"""
+    f = m.functions.get("_json_object_to_fd")
+    if f is None or f.is_decl:
+        return "unknown", "_json_object_to_fd not found"
+    try:
+        h = _WritePE(prog)
+        leaves = h.run(f, [pe.C(3), ("ptr", "obj", ()), pe.C(0), pe.C(0)], pe.State())
+    except Exception as e:
+        return "unknown", str(e)[:80]
+    n = 0
+    for lf in leaves:
+        if lf.kind != "ret" or lf.value is None or not pe.is_const(lf.value):
+            return "unknown", "a path does not end in a constant return"
+        n += 1
+        pos = 0
+        failed = False
+        sched = []
+        for e in lf.state.trace:
+            if e[0] != "write":
+                continue
+            off, cnt, rname = e[1], e[2], e[3]
+            rv = lf.state.roots.get(rname)
+            if rv is None or len(rv) != 1:
+                return "unknown", "a write() result is not decided on a path"
+            rv = next(iter(rv))
+            sched.append(rv)
+            if off is None or cnt is None:
+                return "unknown", "a write() argument is not concrete"
+            if off != pos or not (1 <= cnt <= N_TEXT - pos):
+                return "bad", ("with write() returning %s the call after %d byte(s) were written offers offset %d, count %d of a "
+                               "%d-byte text: bytes are repeated or skipped" % (sched[:-1], pos, off, cnt, N_TEXT))
+            if rv < 0:
+                failed = True
+                break
+            pos += rv
+        rc = lf.value[1]
+        seterr = any(e[0] == "err" for e in lf.state.trace)
+        if failed and not (rc < 0 and seterr):
+            return "bad", "with write() returning %s the function returns %d%s" % (sched, rc, "" if seterr else " without setting the message")
+        if not failed and not (rc == 0 and pos == N_TEXT):
+            return "bad", "with write() returning %s the function returns %d after %d of %d bytes" % (sched, rc, pos, N_TEXT)
+    return ("ok", "%d scripted write() sequences" % n) if n >= 3 else ("unknown", "only %d paths" % n)
+
+
+BPOS_SAMPLE = 5000      # more than one read buffer, so a length clipped to the buffer size shows
+
+
+class _ReadPE(pe.PE):
+    def __init__(self, prog):
+        super().__init__(prog, max_leaves=2000, max_steps=400000)
+        self.loop_widen = 1000
+        self.max_visits = 64
+        self.nreads = 0
+
+    def should_inline(self, g, instr):
+        return g.internal and g.name not in ("_json_c_set_last_err",)
+
+    def init_mem(self, state, base, path, t):
+        if base == "pb":
+            if t.endswith("*"):
+                return ("ptr", "pbtext", ())
+            if t == "i32":
+                return pe.C(BPOS_SAMPLE)
+        return pe.TOP
+
+    def call_model(self, state, frame, i, args):
+        nm = i.callee
+        if nm == "printbuf_new":
+            return ("ptr", "pb", ())
+        if nm == "json_tokener_new_ex":
+            return ("ptr", "tok", ())
+        if nm in ("json_tokener_free", "printbuf_free"):
+            state.trace.append(("free", nm))
+            return pe.C(0)
+        if nm == "__errno_location":
+            return ("ptr", "errno", ())
+        if nm in ("strerror", "json_tokener_error_desc"):
+            return ("ptr", "msg", ())
+        if nm == "json_tokener_get_error":
+            return pe.C(1)
+        if nm == "_json_c_set_last_err":
+            state.trace.append(("err",))
+            return pe.C(0)
+        if nm == "read":
+            k = sum(1 for e in state.trace if e[0] == "read")
+            size = args[2][1] if pe.is_const(args[2]) else None
+            dom = [0] if k >= 3 else [-1, 0, 3] + ([size] if isinstance(size, int) and size > 3 else [])
+            r = self.fresh_root(state, "rd", dom)
+            state.trace.append(("read", r[1], size))
+            return r
+        if nm == "printbuf_memappend":
+            state.trace.append(("append", args[2]))
+            return pe.C(0)
+        if nm == "json_tokener_parse_ex":
+            ln = args[2]
+            lv = ln[1] if pe.is_const(ln) else (next(iter(state.values(ln))) if (not pe.has_top(ln) and state.values(ln) and len(state.values(ln)) == 1) else None)
+            state.trace.append(("parse", args[1][1] if args[1][0] == "ptr" else None, lv))
+            return ("ptr", "result", ())
+        return None
+
+
+def _eval_read(prog, m):
+    f = m.functions.get("json_object_from_fd_ex")
+    if f is None or f.is_decl:
+        return "unknown", "json_object_from_fd_ex not found"
+    try:
+        h = _ReadPE(prog)
+        leaves = h.run(f, [pe.C(3), pe.C(-1)], pe.State())
+    except Exception as e:
+        return "unknown", str(e)[:80]
+    n = 0
+    for lf in leaves:
+        if lf.kind != "ret":
+            return "unknown", "a path ends with %s" % lf.kind
+        n += 1
+        st = lf.state
+        seq = []
+        tr = st.trace
+        for idx, e in enumerate(tr):
+            if e[0] == "read":
+                rv = st.roots.get(e[1])
+                if rv is None or not rv:
+                    return "unknown", "a read() result is not decided on a path"
+                signs = {(x > 0) - (x < 0) for x in rv}
+                if len(signs) != 1:
+                    return "unknown", "a read() result's sign is not decided on a path"
+                # all positive counts behave alike when the code only tests the sign: keep the set, use its smallest member as the name
+                seq.append((idx, min(rv) if min(rv) > 0 else next(iter(rv)), frozenset(rv), e[1]))
+        vals = [v for _, v, _, _ in seq]
+        # every positive count is followed (before the next read) by an append of exactly that count
+        for j, (idx, v, vset, rname) in enumerate(seq):
+            nxt = seq[j + 1][0] if j + 1 < len(seq) else len(tr)
+            apps = [e for e in tr[idx + 1:nxt] if e[0] == "append"]
+            if v > 0:
+                if len(apps) != 1:
+                    return "bad", "with read() returning %s the %d bytes of read #%d are appended %d times" % (vals, v, j + 1, len(apps))
+                a = apps[0][1]
+                av = st.values(a) if not pe.is_const(a) else {a[1]}
+                same_root = (not pe.is_const(a)) and pe.roots_of(a) == {rname}
+                if av is None or set(av) != set(vset) or (len(vset) > 1 and not same_root):
+                    return "bad", "with read() returning %s read #%d's %d bytes are appended with count %s" % (vals, j + 1, v, sorted(av) if av else "?")
+                if j + 1 == len(seq):
+                    return "bad", "with read() returning %s the loop stops after a positive count: the rest of the input is never read" % (vals,)
+            elif apps:
+                return "bad", "with read() returning %s bytes are appended after a non-positive count" % (vals,)
+        parses = sum(1 for e in tr if e[0] == "parse")
+        last = vals[-1] if vals else None
+        null_ret = lf.value is not None and pe.is_const(lf.value) and lf.value[1] == 0
+        if last == -1:
+            if parses or not null_ret or not any(e[0] == "err" for e in tr):
+                return "bad", "with read() returning %s (an error) the function %s" % (vals, "parses the partial text" if parses else "does not fail with a message")
+        elif last == 0:
+            if parses != 1:
+                return "bad", "with read() returning %s the text is parsed %d times" % (vals, parses)
+            pa = [e for e in tr if e[0] == "parse"][0]
+            if pa[1] != "pbtext" or pa[2] != BPOS_SAMPLE:
+                return "bad", ("with read() returning %s the parser is given (%s, %s) instead of the accumulated text and its length "
+                               "(%d in this evaluation)" % (vals, pa[1], pa[2], BPOS_SAMPLE))
+        else:
+            return "bad", "with read() returning %s the function returns without reaching end of input" % (vals,)
+    return ("ok", "%d scripted read() sequences" % n) if n >= 5 else ("unknown", "only %d paths" % n)
+
+
+def _confirm_shape_rules(chk, prog, m, only=None):
+    """a refutation by the loop-shape rules R1 / R2 stands only if the evaluation of the loop finds a misbehaving schedule"""
+    from ..report import REFUTED, UNDECIDED
+    for rid, ev in (("C20.R1", _eval_write), ("C20.R2", _eval_read)):
+        if only is not None and rid not in only:
+            continue
+        bad = [o for o in chk.obls if o.rule == rid and o.verdict == REFUTED]
+        verdict, msg = ev(prog, m)
+        chk.tables["evaluation_" + rid] = {"verdict": verdict, "detail": msg}
+        if not bad:
+            if verdict == "bad":
+                chk.refuted(rid, "_json_object_to_fd" if rid == "C20.R1" else "json_object_from_fd_ex", "evaluation on scripted counts",
+                            "json_util.c", msg)
+            continue
+        if verdict == "ok":
+            for o in bad:
+                o.verdict = UNDECIDED
+                o.msg = ("the loop does not have the shape this rule recognises (%s), but its evaluation on scripted short counts finds "
+                         "no misbehaviour (%s)" % (o.msg[:120], msg))
+        elif verdict == "bad":
+            bad[0].msg = bad[0].msg + "; evaluation: " + msg
